@@ -1107,7 +1107,15 @@ class Judge(object):
         R.hit('recipients-compared')
         if rcpts != want_rcpts:
             mech = None
-            if isinstance(rcpts, list) and len(rcpts) == len(want_rcpts):
+            # a received address that is a sent one cut at a quoted '>' (also when that recipient was scripted
+            # to be rejected by value and therefore was not recognised by the validator)
+            for g in (rcpts if isinstance(rcpts, list) else []):
+                if g not in want_rcpts and any(altered_mechanism(t, 'recipient', w, g) == M_QP_TRUNC
+                                               for w in msg['rcpts']):
+                    mech = M_QP_TRUNC
+            if mech:
+                pass
+            elif isinstance(rcpts, list) and len(rcpts) == len(want_rcpts):
                 for w, g in zip(want_rcpts, rcpts):
                     if w != g:
                         mech = altered_mechanism(t, 'recipient', w, g)
